@@ -7,12 +7,15 @@ import (
 
 // clauses of the property (each compares an implementation program with a reference program)
 const (
-	clMount     = "mount-vs-group"         // P (mounts)                      vs P' (groups)
+	clMount     = "mount-vs-group"                     // P (mounts)                      vs P' (groups)
 	clMountCfg  = "mount-other-subapp-config-vs-group" // P (sub-apps created with the opposite routing config) vs P' (groups)
-	clMountLate = "late-mount-vs-group"    // P (mounted first, filled later) vs P' (groups)
-	clMapOrder  = "map-order"              // P under a deviating map order   vs P under the default order
-	clFlat      = "group-vs-fullpath"      // P' (groups)                     vs P'' (full paths)
-	clRoute     = "routechain-vs-fullpath" // P''' (Route chains)             vs P'' (full paths)
+	clMountLate = "late-mount-vs-group"                // P (mounted first, filled later) vs P' (groups)
+	clMapOrder  = "map-order"                          // P under a deviating map order   vs P under the default order
+	clFlat      = "group-vs-fullpath"                  // P' (groups)                     vs P'' (full paths)
+	clRoute     = "routechain-vs-fullpath"             // P''' (Route chains)             vs P'' (full paths)
+	// two-phase programs: the items after "||" are registered after start-up and the first requests,
+	// then app.RebuildTree(); P (mounts) vs P' (groups) built with the same step sequence
+	clPhased = "late-registration-mount-vs-group"
 )
 
 // pobs is a parsed observation "<trace>|<status>|<Allow>|<body>".
@@ -36,7 +39,7 @@ func parseObs(b []byte) pobs {
 		return o
 	}
 	tr, rest := s[:i], s[i+1:]
-	if strings.HasPrefix(tr, "STARTUP-PANIC") || strings.HasPrefix(tr, "REQUEST-PANIC") {
+	if strings.HasPrefix(tr, "STARTUP-PANIC") || strings.HasPrefix(tr, "REQUEST-PANIC") || strings.HasPrefix(tr, "LATE-REGISTRATION-PANIC") {
 		o.panicMsg = tr
 	} else {
 		for _, ent := range strings.Split(tr, ";") {
@@ -243,6 +246,48 @@ func mountClass(t *tree) string {
 		return "plain-prefix"
 	}
 	return strings.Join(feats, "+")
+}
+
+// lateClass names what a minimal two-phase program registered before start-up and what it
+// registers afterwards (all of its features are necessary).
+func lateClass(t *tree) string {
+	if !t.phased() {
+		return "late=none"
+	}
+	var rec func(items []*node, pre string, set map[string]bool)
+	rec = func(items []*node, pre string, set map[string]bool) {
+		for _, n := range items {
+			switch n.T {
+			case 'r':
+				set[pre+kindNames[n.Kind]] = true
+			case 'g':
+				if len(n.Items) == 0 {
+					set[pre+"empty-group"] = true
+				}
+				rec(n.Items, pre+"group:", set)
+			default:
+				if len(n.Items) == 0 {
+					set[pre+"empty-mount"] = true
+				}
+				rec(n.Items, pre+"mount:", set)
+			}
+		}
+	}
+	join := func(set map[string]bool) string {
+		ks := make([]string, 0, len(set))
+		for k := range set {
+			ks = append(ks, k)
+		}
+		sort.Strings(ks)
+		if len(ks) == 0 {
+			return "nothing"
+		}
+		return strings.Join(ks, ",")
+	}
+	early, late := map[string]bool{}, map[string]bool{}
+	rec(t.Items[:t.split()], "", early)
+	rec(t.Items[t.split():], "", late)
+	return "before-startup=" + join(early) + " late=" + join(late)
 }
 
 // cfgConstraint summarises the set of failing configurations.
